@@ -762,6 +762,11 @@ func (b *Bitmap) unionInPlace(others ...*Bitmap) {
 	}
 
 	for _, other := range others {
+		if other == b {
+			// b ∪ b = b; iterating b's own containers while they are being
+			// replaced would read half-merged data.
+			continue
+		}
 		otherIter, _ := other.Containers.Iterator(0)
 		if otherIter.Next() {
 			bitmapIters = append(bitmapIters, handledIter{
